@@ -44,7 +44,7 @@ EnvReject == /\ phase = "matched" /\ ~EnvOK(fw, found, rule)
              /\ cur' = found + 1 /\ phase' = "scan" /\ steps' = Append(steps, <<found, FALSE>>)
              /\ UNCHANGED <<rule, w0, fw, found>>
 Transform == /\ phase = "matched" /\ EnvOK(fw, found, rule)
-             /\ fw' = [fw EXCEPT !.segs[found] = Rewrite(fw.segs[found], rule.out[1])]
+             /\ fw' = [fw EXCEPT !.segs[found] = RewriteBy(rule.inp[1], fw.segs[found], rule.out[1])]
              /\ cur' = found + 1 /\ phase' = "scan" /\ steps' = Append(steps, <<found, TRUE>>)
              /\ UNCHANGED <<rule, w0, found>>
 Next == FindMatch \/ Finish \/ EnvReject \/ Transform
